@@ -8,7 +8,7 @@ Section Pres.
 Variable c : cfg.
 Hypothesis Hc : cfg_ok c.
 
-Ltac start HI H s := intros HI H; destruct Hc as [Hb Hn]; open_state s; cbn in H.
+Ltac start HI H s := intros HI H; destruct Hc as [Hb Hn Hdm]; open_state s; cbn in H.
 
 Lemma presS_RInitOk s p s' : InvS s -> step c s (RInitOk p) = Some s' -> InvS s'.
 Proof.
